@@ -90,6 +90,21 @@ Models ==
        inits |-> [v |-> T("f32", <<1, 3>>, <<-1, 2, -3>>), w |-> T("f32", <<3, 2>>, <<1, -2, 3, -4, 5, -6>>), shp3 |-> T("i64", <<1>>, <<3>>),
                   ax0 |-> T("i64", <<1>>, <<0>>), st |-> T("i64", <<1>>, <<1>>), en |-> T("i64", <<1>>, <<3>>), idx |-> T("i64", <<2>>, <<2, 0>>),
                   shp13 |-> T("i64", <<2>>, <<1, 3>>)]],
+    \* an input with an initializer as its default: a call that supplies it must not change what a later call without it reads
+    defaulted_input |->
+      [nodes |-> <<Nd("Add", <<>>, <<"x", "v">>, <<"a">>), Nd("Sub", <<>>, <<"v", "a">>, <<"m">>)>>,
+       inputs |-> <<InD("x", <<DSym, DFix(3)>>), InD("v", <<DFix(1), DFix(3)>>)>>, outputs |-> <<"a", "m">>,
+       inits |-> [v |-> T("f32", <<1, 3>>, <<10, 20, 30>>)]],
+    \* comparisons and logic: the first operand already has the output shape, the second one is stretched; the intermediate
+    \* `lt` and the weight `mfull` are read again by later nodes
+    logic_ops |->
+      [nodes |-> <<Nd("Less", <<>>, <<"x", "v">>, <<"lt">>), Nd("And", <<>>, <<"lt", "m">>, <<"an">>), Nd("Or", <<>>, <<"lt", "m">>, <<"o">>),
+                   Nd("Xor", <<>>, <<"lt", "m">>, <<"xo">>), Nd("And", <<>>, <<"mfull", "m">>, <<"wm">>), Nd("Xor", <<>>, <<"mfull", "m">>, <<"wx">>),
+                   Nd("Not", <<>>, <<"lt">>, <<"nl">>), Nd("Equal", <<>>, <<"x", "v">>, <<"eq">>), Nd("Or", <<>>, <<"mfull", "lt1">>, <<"ow">>),
+                   Nd("GreaterOrEqual", <<>>, <<"v", "v">>, <<"lt1">>)>>,
+       inputs |-> <<InD("x", <<DSym, DFix(3)>>)>>, outputs |-> <<"lt", "an", "o", "xo", "wm", "wx", "nl", "eq">>,
+       inits |-> [v |-> T("f32", <<3>>, <<1, 0, -1>>), m |-> T("bool", <<3>>, <<TRUE, FALSE, TRUE>>),
+                  mfull |-> T("bool", <<2, 3>>, <<TRUE, TRUE, FALSE, FALSE, TRUE, FALSE>>)]],
     const_scaler_gemm |->
       [nodes |-> <<Nd("Constant", <<AT("value", [dt |-> "f32", shape |-> <<3>>, data |-> <<1, 2, 3>>])>>, <<>>, <<"k">>),
                    Nd("Scaler", <<AFs("offset", <<1, 2, 3>>), AFs("scale", <<2, 2, 2>>)>>, <<"x">>, <<"sc">>),
